@@ -68,3 +68,47 @@ def run(chk, rule="R-FLAG-ACCESSOR"):
                                                                                            ("old & ~arg" if kind == "clear" else "old | arg",)),
                key="flagacc|%s" % name.replace("asmjit::", ""))
     chk.floor(rule + ":accessors", n, 20)
+
+
+def run_shared_flags(chk):
+    """a flags member that several owners update bit-wise is never overwritten wholesale outside detach / reset"""
+    import re
+    from . import cfg
+    R = "R-SHARED-FLAGS-BITWISE"
+    chk.rule(R, "BaseEmitter::_forced_inst_options is shared by the base class (kReserved: logger / validation attached) and the x86 assembler "
+                "(kX86_InvalidRex for 32-bit targets), each of which updates its own bit with |= / &= ~; a plain assignment of the whole member "
+                "occurs only in on_detach() / constructors, where every owner's bit is meant to go")
+    FIELD = "_forced_inst_options"
+    units = [("asmjit/core/emitter.cpp", r"asmjit::BaseEmitter[A-Za-z_0-9:]*$"), ("asmjit/x86/x86assembler.cpp", r"asmjit::x86::Assembler::(on_attach|on_detach|on_reinit|Assembler)$"),
+             ("asmjit/arm/a64assembler.cpp", r"asmjit::a64::Assembler::(on_attach|on_detach|on_reinit|Assembler)$"), ("asmjit/core/assembler.cpp", r"asmjit::BaseAssembler::(on_attach|on_detach|on_reinit)$"),
+             ("asmjit/core/builder.cpp", r"asmjit::BaseBuilder::(on_attach|on_detach|on_reinit)$")]
+    bitwise_owners = set()
+    plain = []
+    for unit, rex in units:
+        f = chk.facts(unit, funcs=rex)
+        for fn in cfg.load_functions(f):
+            if not fn.file.endswith(unit.split("/")[-1]):
+                continue
+            for i, x in fn.ex.items():
+                if x["k"] in ("binop", "opcall") and (x.get("op") or "").endswith("=") and x.get("op") not in ("==", "!=", "<=", ">="):
+                    lhs = x.get("lhs") if x["k"] == "binop" else (x.get("obj") if x.get("obj") is not None else (x.get("args") or [None])[0])
+                    if lhs is None or not re.sub(r"\s+", "", fn.text(lhs)).endswith(FIELD):
+                        continue
+                    if x["op"] in ("|=", "&=", "^="):
+                        bitwise_owners.add(fn.name)
+                    elif x["op"] == "=":
+                        plain.append((fn, i))
+    chk.need(len(bitwise_owners) >= 2, "fewer than two functions update %s bit-wise" % FIELD)
+    n = 0
+    for fn, i in plain:
+        n += 1
+        short = fn.name.replace("asmjit::", "")
+        parts = short.split("::")
+        ok = parts[-1] in ("on_detach", "reset") or (len(parts) >= 2 and parts[-1] == parts[-2])
+        chk.ob(R, "%s|%s=" % (short, FIELD), ok, loc=fn.loc(i),
+               detail="`%s` overwrites the whole member in %s: the bits other owners keep there (kX86_InvalidRex of a 32-bit x86 assembler) are lost "
+                      "whenever this runs" % (" ".join(fn.text(i).split())[:60], short), key="sharedflags|%s" % short)
+    for o in sorted(bitwise_owners):
+        n += 1
+        chk.ob(R, "%s|bitwise" % o.replace("asmjit::", ""), True, loc="")
+    chk.floor(R + ":writers", n, 3)
